@@ -10,6 +10,7 @@ import (
 	"fmt"
 	"math/big"
 	"os"
+	"path/filepath"
 	"sort"
 	"time"
 
@@ -81,6 +82,7 @@ type MNode struct {
 	ConnErr   error
 	View      consensus.UTXO
 	Viol      string
+	DelivStep int // step in which the block was first handed to the node (-1: prefix)
 	// PreRaw, when set, is a malleated serialisation of this very block (same header, duplicated trailing
 	// transactions: CVE-2012-2459).  It is handed to the node first and must be refused without poisoning
 	// the genuine block that follows.
@@ -128,6 +130,8 @@ type Sim struct {
 	seq    int
 	extra  uint64
 	quiet  bool
+	Cfg    Config
+	CurStep int // index of the op being executed (-1 during the prefix)
 	Hooks  Hooks
 	Labels []string // class labels collected during the run
 	// ExcludedKeys: disagreements inside the class of an open known finding after which the history went on
@@ -150,28 +154,62 @@ func Params(ps ParamSpec) *consensus.Params {
 	return p
 }
 
+// Config refines how a Sim is set up.
+type Config struct {
+	Dir          string // use this data directory (kept on Close) instead of a fresh temp dir
+	ModelOnly    bool   // no node at all: the model alone replays the history (deterministic block regeneration)
+	AssumePrefix bool   // the directory already holds the prefix blocks: mine them in the model only
+	StepLog      func(phase string, step int)
+}
+
 // New opens a fresh node in a temp dir and pre-mines the prefix.
-func New(ps ParamSpec, opts env.Options) (*Sim, error) {
+func New(ps ParamSpec, opts env.Options) (*Sim, error) { return NewCfg(ps, opts, Config{}) }
+
+// NewCfg is New with a Config.
+func NewCfg(ps ParamSpec, opts env.Options, cfg Config) (*Sim, error) {
 	utxo.UTXO_WRITING_TIME_TARGET = 0
-	dir, err := os.MkdirTemp("", "sim")
-	if err != nil {
-		return nil, err
+	var err error
+	dir := cfg.Dir
+	if dir == "" && !cfg.ModelOnly {
+		dir, err = os.MkdirTemp("", "sim")
+		if err != nil {
+			return nil, err
+		}
 	}
-	s := &Sim{P: Params(ps), B: env.NewBuilder(), Dir: dir, Opts: opts}
-	s.Node, err = env.Open(dir, s.P, opts)
-	if err != nil {
-		return nil, err
+	s := &Sim{P: Params(ps), B: env.NewBuilder(), Dir: dir, Opts: opts, Cfg: cfg, CurStep: -1}
+	if !cfg.ModelOnly {
+		s.Node, err = env.Open(dir, s.P, opts)
+		if err != nil {
+			return nil, err
+		}
 	}
 	s.Root = &MNode{Idx: consensus.NewGenesis(s.P), Delivered: true, Present: 1, state: 1, View: consensus.UTXO{}}
 	if ps.Base != 0 {
 		s.Root.Idx.Height = ps.Base
-		s.Node.Ch.BlockTreeRoot.Height = ps.Base
+		if s.Node != nil {
+			s.Node.Ch.BlockTreeRoot.Height = ps.Base
+		}
 	}
 	s.Nodes = []*MNode{s.Root}
 	s.Tip = s.Root
 	sp := ps.Spacing
 	if sp == 0 {
 		sp = 600
+	}
+	if cfg.AssumePrefix && s.Node != nil {
+		// the blocks are on disk already: replay them in the model only, then check that the node agrees
+		node := s.Node
+		s.Node = nil
+		for i := 0; i < ps.Prefix; i++ {
+			if err := s.Step(Op{Kind: "block", Parent: -1, Step: sp}); err != nil {
+				return s, err
+			}
+		}
+		s.Node = node
+		if err := s.compare("open-with-prefix"); err != nil {
+			return s, err
+		}
+		return s, nil
 	}
 	for i := 0; i < ps.Prefix; i++ {
 		if err := s.stepQuiet(Op{Kind: "block", Parent: -1, Step: sp}, i == ps.Prefix-1); err != nil {
@@ -185,7 +223,9 @@ func (s *Sim) Close() {
 	if s.Node != nil {
 		s.Node.Close()
 	}
-	os.RemoveAll(s.Dir)
+	if s.Cfg.Dir == "" && s.Dir != "" {
+		os.RemoveAll(s.Dir)
+	}
 }
 
 // Valid reports whether the chain ending at n is valid in the model (lazy, cached).
@@ -301,14 +341,23 @@ func (s *Sim) Step(op Op) error {
 		}
 		err = s.deliver(cand[mod(op.Pick, len(cand))])
 	case "idle":
+		if s.Node == nil {
+			break
+		}
 		s.Node.Ch.Idle()
 		if op.Arg%2 == 1 { // let the snapshot finish
-			for i := 0; i < 2000 && s.Node.Ch.Unspent.WritingInProgress.Get(); i++ {
-				time.Sleep(time.Millisecond)
-			}
+			s.WaitSnapshot()
 		}
 		err = s.compare("idle")
+	case "flush":
+		// write the queued blocks to the block files (what Chain.Idle does first), no snapshot
+		if s.Node != nil {
+			s.Node.Ch.Blocks.Idle()
+		}
 	case "reopen":
+		if s.Node == nil {
+			break
+		}
 		s.Node.Close()
 		s.Node, err = env.Open(s.Dir, s.P, s.Opts)
 		if err != nil {
@@ -340,6 +389,12 @@ func (s *Sim) deliver(n *MNode) error {
 	first := !n.Delivered
 	n.Delivered = true
 
+	if first {
+		n.DelivStep = s.CurStep
+	}
+	if s.Node == nil {
+		return s.deliverModelOnly(n, oldTip, parentPresent, wasPresent, first)
+	}
 	if n.PreRaw != nil && first && parentPresent == 1 {
 		if _, _, e := s.Node.Deliver(n.PreRaw); e == nil {
 			return fmt.Errorf("block %x (height %d): a copy with duplicated trailing transactions (same merkle root) was accepted", n.Idx.Hash[:6], n.Idx.Height)
@@ -422,6 +477,53 @@ func (s *Sim) deliver(n *MNode) error {
 	return s.settle(n, oldTip, gerr, what, false)
 }
 
+// WaitSnapshot waits until a started snapshot has been written and renamed (or aborted).
+func (s *Sim) WaitSnapshot() {
+	for i := 0; i < 5000 && s.Node.Ch.Unspent.WritingInProgress.Get(); i++ {
+		time.Sleep(time.Millisecond)
+	}
+	for i := 0; i < 5000; i++ {
+		m, _ := filepath.Glob(filepath.Join(s.Node.Dir, "*.db.tmp"))
+		if len(m) == 0 {
+			break
+		}
+		time.Sleep(time.Millisecond)
+	}
+}
+
+// deliverModelOnly applies the delivery rules to the model alone.
+func (s *Sim) deliverModelOnly(n, oldTip *MNode, parentPresent, wasPresent int, first bool) error {
+	if parentPresent == 0 || wasPresent == 1 {
+		return nil
+	}
+	if parentPresent == 2 || wasPresent == 2 {
+		n.Present = 2
+		if first {
+			n.Seq = s.seq
+			s.seq++
+		}
+		s.Valid(n)
+		return s.settle(n, oldTip, nil, "", true)
+	}
+	if n.CheckErr != nil {
+		return nil
+	}
+	if first || wasPresent == 0 {
+		n.Seq = s.seq
+		s.seq++
+	}
+	n.Present = 1
+	valid := s.Valid(n)
+	if n.Parent == oldTip && !valid {
+		n.Present = 0
+		return nil
+	}
+	if !valid {
+		n.Present = 2
+	}
+	return s.settle(n, oldTip, nil, "", true)
+}
+
 // settle recomputes the model tip after a block was stored and compares.
 func (s *Sim) settle(n, oldTip *MNode, gerr error, what string, fuzzy bool) error {
 	best, near := s.modelTip()
@@ -446,7 +548,7 @@ func (s *Sim) settle(n, oldTip *MNode, gerr error, what string, fuzzy bool) erro
 		s.label("failed-reorg")
 	}
 	s.Tip = best
-	if heavier && best != n && n.Parent != oldTip {
+	if s.Node != nil && heavier && best != n && n.Parent != oldTip {
 		// Fallback after a failed reorganisation.  Known finding F21: the node then walks to "the farthest
 		// node" instead of the first-seen one among equal-work tips.  Inside that class (and only there) any
 		// of the tied valid tips is accepted, counted, and the history continues from the node's choice.
@@ -476,6 +578,9 @@ func (s *Sim) settle(n, oldTip *MNode, gerr error, what string, fuzzy bool) erro
 				m.Present = 2
 			}
 		}
+	}
+	if s.Node == nil {
+		return nil
 	}
 	if near {
 		// either measure's winner is acceptable: compare against what the node chose if it is one of them
@@ -522,6 +627,9 @@ func isAncestor(a, b *MNode) bool {
 
 // compare checks tip and full UTXO set of the node against the model.
 func (s *Sim) compare(when string) error {
+	if s.Node == nil {
+		return nil
+	}
 	h, height := s.Node.Tip()
 	if s.quiet && h == s.Tip.Idx.Hash {
 		return nil
@@ -906,16 +1014,30 @@ func RunCase(c Case, opts env.Options, hooks Hooks) (s *Sim, err error) {
 
 // RunCaseOpen is RunCase with the open-known-finding predicate installed.
 func RunCaseOpen(c Case, opts env.Options, hooks Hooks, open func(string) bool) (s *Sim, err error) {
-	s, err = New(c.Params, opts)
+	return RunCaseCfg(c, opts, hooks, open, Config{})
+}
+
+// RunCaseCfg is the general form.
+func RunCaseCfg(c Case, opts env.Options, hooks Hooks, open func(string) bool, cfg Config) (s *Sim, err error) {
+	s, err = NewCfg(c.Params, opts, cfg)
 	if s != nil {
 		s.Hooks = hooks
 		s.Open = open
+		s.CurStep = -1
 	}
 	if err != nil {
 		return s, err
 	}
 	for i, op := range c.Ops {
-		if e := s.Step(op); e != nil {
+		s.CurStep = i
+		if cfg.StepLog != nil {
+			cfg.StepLog("start", i)
+		}
+		e := s.Step(op)
+		if cfg.StepLog != nil && e == nil {
+			cfg.StepLog("done", i)
+		}
+		if e != nil {
 			if x, ok := e.(*Excluded); ok {
 				return s, x
 			}
